@@ -272,32 +272,60 @@ def _seedsome(ctx, cfg, prog, mod):
                 leaves = valueflow.sources(b, al, a.place.local)
                 bufs = set()
                 take = {}      # buffer local -> blocks in which the slice handed on is taken from it
-                work = [a.place.local]
+                work = [(a.place.local, frozenset())]
                 seen = set()
+
+                def _is_buf(ty_):
+                    return ('SmallVec<' in ty_ or 'std::vec::Vec<' in ty_) and 'CellKey' in ty_ and \
+                        not ty_.startswith('&') and 'Option<' not in ty_
+
+                def _tested_nonempty(o_):
+                    """buffers whose `is_empty()` result feeds this bool operand (`(!buf.is_empty()).then(..)`)"""
+                    out_ = set()
+                    if o_.place is None:
+                        return out_
+                    for lf in valueflow.sources(b, al, o_.place.local):
+                        if lf[0] == 'call' and (lf[1].callee or lf[1].resolved or '').rsplit('::', 1)[-1] == 'is_empty' and lf[1].args:
+                            tt_ = al.operand_target(lf[1].args[0])
+                            if tt_ is not None:
+                                out_.add(tt_[0])
+                    return out_
+
                 while work:
-                    l = work.pop()
-                    if l in seen:
+                    l, guarded = work.pop()
+                    if (l, guarded) in seen:
                         continue
-                    seen.add(l)
+                    seen.add((l, guarded))
                     ty = b.locals[l]
-                    if ('SmallVec<' in ty or 'std::vec::Vec<' in ty) and 'CellKey' in ty and not ty.startswith('&') and 'Option<' not in ty:
+                    if _is_buf(ty):
                         bufs.add(l)
                         continue
                     for (dbb, didx, node) in b.defs.get(l, []):
-                        ops = node.args if didx == 'term' else (list(node.rv.ops) + ([] if node.rv.place is None else []))
+                        g2 = guarded
+                        ops = node.args if didx == 'term' else list(node.rv.ops)
+                        if didx == 'term' and (node.callee or node.resolved or '').rsplit('::', 1)[-1] in ('then', 'then_some') and ops:
+                            g2 = guarded | frozenset(_tested_nonempty(ops[0]))
                         for o in ops:
                             if o.place is not None:
                                 tt = al.operand_target(o)
-                                work.append(o.place.local)
+                                work.append((o.place.local, g2))
                                 if tt is not None:
-                                    work.append(tt[0])
-                                for cand in [o.place.local] + ([tt[0]] if tt is not None else []):
-                                    cty = b.locals[cand]
-                                    if ('SmallVec<' in cty or 'std::vec::Vec<' in cty) and 'CellKey' in cty and \
-                                            not cty.startswith('&') and 'Option<' not in cty:
+                                    work.append((tt[0], g2))
+                                direct = [o.place.local]
+                                # a direct borrow `&buf` handed to as_slice / deref / is_empty (not a carrier such as the
+                                # Option<&[..]> built from it further down the chain)
+                                for (_rb, ridx, rnode) in b.defs.get(o.place.local, []):
+                                    if ridx != 'term' and rnode.rv.k == 'ref' and rnode.rv.place is not None and rnode.rv.place.is_local():
+                                        direct.append(rnode.rv.place.local)
+                                for cand in direct:
+                                    if _is_buf(b.locals[cand]) and cand not in g2:
                                         take.setdefault(cand, set()).add(dbb)
+                                    elif _is_buf(b.locals[cand]):
+                                        take.setdefault(cand, set())
+                            elif o.const and 'closure' in o.const:
+                                pass
                         if didx != 'term' and node.rv.place is not None:
-                            work.append(node.rv.place.local)
+                            work.append((node.rv.place.local, g2))
                 bad = []
                 for L in sorted(bufs):
                     empties = []
